@@ -170,6 +170,18 @@ class Run:
             self.progs.append({"kind": kind, "ctx": ctx, "fault": fault, "mod": None,
                                "seen": set(), "early": ch.draw(3, "define_early") == 0})
 
+    MODNAMES = ("c33_p{i}", "c33_p{i}", "guppylang_playground_p{i}", "guppylang_internals_x_p{i}",
+                "hugr_user_p{i}", "tests.user_p{i}", "guppylang.user_p{i}")
+
+    def modname(self, pi: int) -> str:
+        """The name of the user's module is an input too (the defining module of a
+        definition is looked up by the compiler)."""
+        if "modnames" not in self.__dict__:
+            self.modnames = {}
+        if pi not in self.modnames:
+            self.modnames[pi] = self.MODNAMES[self.ch.draw(len(self.MODNAMES), "module_name")].format(i=pi)
+        return self.modnames[pi]
+
     def violation(self, cls: str, sig: dict, expected, observed) -> None:
         self.viol.append({"cls": f"C33/{cls}", "sig": sig, "expected": expected,
                           "observed": observed, "detail": {"step": self.steps}})
@@ -185,7 +197,7 @@ class Run:
         _, pi, propagate, compile_ = op
         p = self.progs[pi]
         if p["mod"] is None:
-            p["mod"] = genv.make_module(f"c33_p{pi}", P.program(p["kind"], p["ctx"], p["fault"]))
+            p["mod"] = genv.make_module(self.modname(pi), P.program(p["kind"], p["ctx"], p["fault"]))
         main = p["mod"].main
         thunk = (lambda: main.compile_function()) if compile_ else (lambda: main.check())
         held = {}
@@ -364,7 +376,7 @@ def run_case(ch: Choices, params: dict) -> dict:
         run.model = True
     for pi, p in enumerate(run.progs):
         if p.get("early"):
-            p["mod"] = genv.make_module(f"c33_p{pi}", P.program(p["kind"], p["ctx"], p["fault"]))
+            p["mod"] = genv.make_module(run.modname(pi), P.program(p["kind"], p["ctx"], p["fault"]))
             run.probes["defined_before_first_check_under_other_gate_state"] += 0
             run.log.add("define-early", pi, "gate", run.model)
             p["defined_under"] = run.model
